@@ -15,7 +15,7 @@ RULE = ('generated specs compiled with python_types and python_type_stubs into o
         'names (both directions); each field / tag / helper annotation equals an independent Stone->PEP 484 '
         'mapping (Text, int, float, bool, bytes, datetime.datetime, List[..], Dict[..], Optional[..], Class '
         'or ns.Class); every name used in an annotation is imported or defined in the stub. non-trivial = '
-        'spec with nullable, list, map, timestamp, cross-namespace reference or alias; distinct by spec hash.')
+        'spec with nullable, list, map, timestamp, cross-namespace reference or alias; distinct by spec hash. Each API description is handed to the stub backend a second time and the two outputs must be identical.')
 ASSUMPTIONS = ['No mypy in the sandbox: validity is syntactic validity plus name resolution, as the statement lists.',
                'ROUTES and private (underscore) members are not part of the compared surface.']
 
